@@ -245,6 +245,12 @@ Definition reader_step (s : mux_st) : mux_st :=
        | PShortHeader | PShortPayload => fail_reader EErr s
        end.
 
+(* the reader's io.ReadFull returns an error that is not an end-of-file (connection reset, …) *)
+Definition reader_fail_step (s : mux_st) : mux_st :=
+  if m_reader_done s then s
+  else if m_closed s then set_reader_done true (latch EEOF s)
+  else fail_reader EErr s.
+
 Inductive result :=
 | RData (p : bytes)   (* Read returned one frame *)
 | RErr (e : errc)
@@ -307,7 +313,8 @@ Inductive event :=
 | EvWrite (id : N) (buf : bytes) (cut : option N)
 | EvClose
 | EvConnClose (id : N)
-| EvTrunkDown.     (* the peer closed the trunk: every later trunk.Write fails with n = 0 *)
+| EvTrunkDown      (* the peer closed the trunk: every later trunk.Write fails with n = 0 *)
+| EvTrunkFail.     (* the reader's trunk.Read fails with an error other than end-of-file *)
 
 Definition step_mp (mp : N) (s : mux_st) (e : event) : mux_st * result :=
   match e with
@@ -317,6 +324,7 @@ Definition step_mp (mp : N) (s : mux_st) (e : event) : mux_st * result :=
   | EvClose => (do_close s, ROk)
   | EvConnClose id => (conn_close_step id s, ROk)
   | EvTrunkDown => (set_tx (m_tx s) true s, ROk)
+  | EvTrunkFail => (reader_fail_step s, ROk)
   end.
 
 Fixpoint run_mp (mp : N) (s : mux_st) (evs : list event) : mux_st * list (event * result) :=
